@@ -288,6 +288,15 @@ def check_builder_family(prop, tier):
     conf = BUILDER_FAMILY[prop]
     thorough = tier == "thorough"
     r = builder_pipeline(prop, tier, conf)
+    if prop == "C13":
+        # time passes between the creation of the builder and build: the defaults stay those of the creation
+        r2 = builder_pipeline(prop + "t", tier, dict(fam="c13t", rnd=(0, 0), nonce=(0, 0), whys=("C13",), deep=False))
+        for k in ("states", "transitions", "nbeh", "n", "nbuilds", "other"):
+            r[k] += r2[k]
+        r["violations"] += [dict(v, props=["C13"]) for v in r2["violations"]]
+        r["bad"] += r2["bad"]
+        r["samples"] = r["samples"][:2] + r2["samples"][:1]
+        r["twall"] += r2["twall"]
     fresh = verif.report(prop, r["violations"], tier)
     coverage = {
         "states": r["states"],
